@@ -233,6 +233,27 @@ def special(acc, tier):
             if x.result is not None and "sig" in x.result.values:
                 acc.violation({"symptom": "emit-name-in-values", "family": "emit"}, {"kind": "emit", "select": sel, "runner": runner, "program": p}, "emit-only output returned as a value")
             acc.key(("emit", runner, repr(sel)))
+    # output names that are prefixes / substrings of one another, selected with the STRING form of select (run-time, graph-level and
+    # as the selection a nested graph exposes): the selection is a set of names, never a substring test
+    names = ["x", "xy", "xyz", "y"]
+    for runner in ("sync", "async"):
+        for form in ("run-str", "run-list", "graph", "nested"):
+            for sel in names:
+                for om in ("ignore", "error"):
+                    nodes = [T.fn(f"n_{o}", ["e0"], [o]) for o in names]
+                    if form == "nested":
+                        inner = T.prog(nodes, name="inr", select=[sel])
+                        p = T.set_async(T.prog([T.gnode("inr", inner)]), runner == "async")
+                        kw = {}
+                    else:
+                        p = T.set_async(T.prog(nodes, **({"select": [sel]} if form == "graph" else {})), runner == "async")
+                        kw = {"select": sel} if form == "run-str" else ({"select": [sel]} if form == "run-list" else {})
+                    x = execute(p, ins, runner=runner, h=H(), on_missing=om, **kw)
+                    acc.evaluations += 1
+                    acc.key(("prefix-names", runner, form, sel, om))
+                    got = None if x.result is None else set(x.result.values)
+                    if x.exc is not None or got != {sel}:
+                        acc.violation({"symptom": "value-outside-selection" if got and got - {sel} else "selected-produced-value-missing", "family": "prefix-names", "form": form}, {"kind": "prefix-names", "runner": runner}, f"outputs {names}, selection {sel!r} ({form}, on_missing={om}, {runner}): result holds {sorted(got) if got is not None else repr(x.exc)}, expected exactly [{sel!r}]")
     # the same with the producer CACHED on a serialising backend: a restored sentinel must still be recognised
     import shutil
     import tempfile
